@@ -2,6 +2,7 @@ package main
 
 import (
 	"fmt"
+	"go/token"
 	"go/types"
 	"os"
 	"regexp"
@@ -66,13 +67,13 @@ func c03Proxy(c *Ctx, r *Report) {
 			Params: map[string]SV{"recv": symRef("h", false)},
 			ByType: map[string]SV{"layer4.Connection": symRef("down", false), "[]net.Conn": symSlice("ups", 2)},
 			Heap:   map[string]SV{"ups[0]": kind("up0", caps[1]), "ups[1]": kind("up1", caps[2]), "down.Conn": kind("down.Conn", caps[0])},
-			Inline: func(f *ssa.Function) bool { // the closures of proxy(), nested ones included
+			Inline: func(f *ssa.Function) bool { // the closures of proxy(), nested ones included, and the unexported functions of the package it runs (as goroutines or directly)
 				for q := f.Parent(); q != nil; q = q.Parent() {
 					if fname(q) == fnName {
 						return true
 					}
 				}
-				return false
+				return f.Pkg != nil && f.Pkg == fn.Pkg && f != fn && f.Parent() == nil && !token.IsExported(f.Name())
 			},
 		}
 		c03ProxyCalls(sc)
